@@ -83,7 +83,7 @@ crate::fs_harness!(c09_fail_wrong_type @ 64 => { fail_no_leak::<U32, u16>() });
 crate::fs_harness!(c09_fail_wrong_type_zero @ 64 => { fail_no_leak::<Tup2, [u16; 2]>() });
 crate::fs_harness!(c09_fail_truncated @ 64 => { corrupt_no_leak::<U32, 20, 64>() });
 crate::fs_harness!(c09_fail_bad_magic @ 64 => { corrupt_no_leak::<U32, 64, 3>() });
-crate::fs_harness!(c09_fail_bad_tag @ 64 => { corrupt_no_leak::<OptU8, 64, 61>() });
+crate::fs_harness!(c09_fail_bad_tag @ 64 => { corrupt_no_leak::<E2C, 64, 53>() });
 
 /// (ii) I/O failure while reading the file (the file ends before the length its
 /// metadata reported): `load_mem` fails, frees the block exactly once.
